@@ -63,7 +63,7 @@ def replay(o, seed):
         return r
     rd = ({"data": d.hex(), "schedule": [x for x in s if isinstance(x, int)], "bufsize": bs} for d, s, bs in sock_candidates(seed + 1))
     r = try_candidates("socket_reader", rd, key=lambda i, r: "socket-reader")
-    if r.get("reproduced") or not ("dechunk" in (o.get("unit") or o["name"]) or "chunked" in o["name"]):
+    if r.get("reproduced") or not ("dechunk" in (o.get("unit") or o["name"]) or "chunked" in o["name"] or "_recv" in (o.get("unit") or o["name"])):
         return r
     from props import C12  # chunked transfer decoding: its own segmentation sweep
     return C12.replay(o, seed)
